@@ -269,3 +269,36 @@ impl Wal {
         Ok(())
     }
 }
+
+// ---------------------------------------------------------------- A12 linear forms
+#[derive(Clone, Copy, PartialEq, Eq, PartialOrd, Ord)]
+pub struct Tk(u64);
+impl Tk {
+    pub fn as_u64(self) -> u64 {
+        self.0
+    }
+    pub fn checked_add(self, rhs: u64) -> Option<Self> {
+        self.0.checked_add(rhs).map(Self)
+    }
+    pub fn checked_increment(self) -> Option<Self> {
+        self.checked_add(1)
+    }
+}
+pub struct Ck {
+    pub tick: Tk,
+}
+/// keeps `tick <= at + 1` expressed through the newtype helper and a captured bound
+pub fn keep_le_plus_one(cks: &[Ck], at: Tk) -> usize {
+    let bound = at.checked_increment().unwrap_or(Tk(u64::MAX));
+    cks.iter().filter(|c| c.tick <= bound).count()
+}
+/// the same bound written as a strict comparison on raw integers
+pub fn keep_lt_plus_two(cks: &[Ck], at: Tk) -> usize {
+    let end = at.as_u64() as usize + 1;
+    cks.iter().filter(|c| c.tick.as_u64() < (end as u64).saturating_add(1)).count()
+}
+/// an off-by-one: `tick - 1 <= at + 1`
+pub fn keep_le_plus_two(cks: &[Ck], at: Tk) -> usize {
+    let end = at.as_u64() + 1;
+    cks.iter().filter(|c| c.tick.as_u64().saturating_sub(1) <= end).count()
+}
